@@ -58,12 +58,12 @@ CHECKS["C16"] = ("E5-udp",
   "Exhaustive over the corpus x truncation lengths x 3 predecessors; sequences sampled.",
   "Loopback delivery in order and without loss (a 5 s timeout is reported as inconclusive, exit 2).",
   "DESIGN.md §5 C16")
-CHECKS["C01"] = ("E2-sim",
+CHECKS["C01"] = ("E2-sim + E3-puppet",
   "proptest scenarios on the real daemons over a fault-injecting in-memory link (virtual clock); identity oracle on every success claim",
   "Two real daemons exchange one file per scenario under generated configuration (segment size, both modes, closure, checksum type, CRC, NAK procedure, limits, timeouts, id widths), "
   "adversarial content (zero runs, checksum-neutral word pairs, zero tail), link timing, scheduler seed and up to 5 faults (drop, duplicate, delay, bit corruption with CRC on); "
   "for every (NoError, Complete, Retained) Finished indication at either user the destination file, read at that moment and at the end, must equal the source. "
-  "Plus an exhaustive family: one lost datagram at every position x weak-checksum contents x both modes. Sampled search: tens to hundreds of thousands of scenarios per run.",
+  "Plus exhaustive families: one lost datagram at every position x weak-checksum contents x both modes; one flipped bit in the file data of each segment on a link without CRC (modular checksum); and a puppet-sender family (E3) in which a File Data PDU beyond the announced file size arrives before the EOF, between EOF and the rest of the data, or last. Sampled search: tens of thousands to millions of scenarios per run.",
   "Single-threaded deterministic runtime (message orderings, not preemption). Trusts the harness link and the content generators.",
   "DESIGN.md §5 C01")
 CHECKS["C02"] = ("E2-sim",
@@ -106,7 +106,7 @@ CHECKS["C19"] = ("E2-sim",
 CHECKS["C08"] = ("E3-puppet",
   "puppet sender (harness-fabricated PDUs at chosen virtual times) vs the real receiving daemon; exhaustive withheld-subset x arrival-order x NAK-procedure enumeration + sampled variations; oracle = exact model of what was delivered",
   "For files of 0..5 (thorough 6) segments every subset of withheld metadata/segments x 5 arrival orders (incl. EOF first, data after EOF) x 4 NAK procedures is delivered by a puppet to a real receiver "
-  "(segment size 16: one request per NAK PDU), plus sampled segment sizes, large file-size flag, CRC, prompts and the puppet's answers (silent, all, half, duplicate EOF). Every NAK must be well-formed "
+  "(segment size 16: one request per NAK PDU), a family in which the delivery that opens a second gap falls into the millisecond in which the NAK round for the first gap expires (task polled late, hook H5: either order), plus sampled segment sizes, large file-size flag, CRC, prompts, pauses longer than the NAK timeout and the puppet's answers (silent, all, half, duplicate EOF). Every NAK must be well-formed "
   "(non-empty ranges or the 0-0 marker only while metadata is missing, inside scope and file, fitting the PDU size) and sound (never a held byte); in every quiet interval after EOF the union of the "
   "requests must equal the missing set (plus metadata), a NAK must come within the delay after EOF and again each NAK period; deferred: nothing unsolicited before EOF; immediate: a new gap is requested "
   "at once / after the delay if it persists; the receiver never verifies or finalizes while something is missing.",
@@ -123,15 +123,15 @@ CHECKS["C07"] = ("E3-puppet",
 CHECKS["C20"] = ("E2-sim",
   "proptest scenarios provoking every progress report (keep-alive prompts, suspend/resume, blackouts -> faults/abandon) on the real daemons; oracle = delivered-distinct-bytes / emitted-offset model with a window rule",
   "Acknowledged-mode scenarios from the general generator (files of >= 3 segments, duplicates, drops, retransmissions) with Prompt(keep-alive) at any datagram ordinal, optional suspend/resume at either side and "
-  "optional blackouts that lead to limit faults and abandon. Every figure in a KeepAlive PDU, Fault, Abandon or Resumed indication must equal the number of distinct bytes delivered to the receiver "
+  "optional blackouts that lead to limit faults and abandon, in 3 of 10 cases a user cancel in the middle of the first pass; plus a puppet-sender family with arbitrary overlapping / duplicated / unaligned segments each followed by a keep-alive prompt. Every figure in a KeepAlive PDU, Fault, Abandon or Resumed indication must equal the number of distinct bytes delivered to the receiver "
   "(resp. the highest offset+length the sender had put out) at some point of a small window around its emission, never exceed the file size and never decrease.",
-  "Window: events up to 2 ms earlier are surely counted, what may be in the 2-PDU transport pipeline (2 tau + 2 ms) may be. Sampled.",
+  "Window: events up to 2 ms earlier are surely counted, what may be in the 2-PDU transport pipeline (2 tau + 2 ms) may be; a delivered segment counts from the moment the receiver's FileSegmentRecv indication shows it was processed. Sampled.",
   "DESIGN.md §5 C20")
 CHECKS["C17"] = ("E3-puppet",
   "grid enumeration of timeout x limit x handler x answers-before-expiry over 9 fault families with puppet peers (virtual clock); timestamp arithmetic on the trace",
-  "Puppet peers make each limit fault happen in isolation: sender ack limit, sender inactivity (with keep-alives shortly before an expiry), receiver ack limit, receiver NAK limit (with partial "
+  "Puppet peers make each limit fault happen in isolation: sender ack limit, sender inactivity (with keep-alives or NAKs shortly before an expiry), receiver ack limit, receiver NAK limit (with partial "
   "retransmissions shortly before the next round), receiver inactivity (with late segments 1 ms before an expiry), checksum failure, file-size error, and sender/receiver ack limit with a user suspension of 0.4..5.1 periods while waiting (suspended time must not count, every expiry still retransmits); timeouts 1..3 s, limits 1..4, handlers absent/cancel/"
-  "suspend/ignore/abandon, deferred/immediate NAK (exhaustive grid, 2352 cases). The first fault must have the expected condition, come L*T after the event that restarted the count (never earlier, not later), "
+  "suspend/ignore/abandon, deferred/immediate NAK (exhaustive grid, repeated under other link timings and with the transaction tasks polled late, hook H5). The first fault must have the expected condition, come L*T after the event that restarted the count (never earlier, not later), "
   "with exactly L transmissions of EOF/Finished (resp. L NAK rounds) before it, and the configured action must follow.",
   "Tolerance 3 tau + 6 ms. With Ignore only the absence of cancel/abandon/suspend/termination is required.",
   "DESIGN.md §5 C17")
@@ -154,7 +154,7 @@ CHECKS["C04"] = ("E3-puppet + E2-sim",
 CHECKS["C11"] = ("E2-sim",
   "seeded generation of multi-daemon, multi-transaction scenarios with random link faults, injected stray PDUs and replays on the real daemons; per-transaction identity oracle + routing + termination + health check",
   "2-3 real daemons, 2..24 overlapping Puts in any direction and mode with per-transaction tagged contents and destinations, six families (loss-free; + strays; one lost datagram per directed link, with and without strays, where acknowledged Puts must still succeed; lossy + strays; strays + replay/reflection of an ended "
-  "transaction's PDUs); in half of the scenarios all daemons number their transactions from the same value. Put ids must be pairwise distinct; every success claim must show that transaction's own content at its own destination (cross-wiring is recognised by the tag); every indication must name a "
+  "transaction's PDUs; a burst of 120..320 datagrams handed to one daemon in one instant with the receive transaction polled late, so that its mailbox runs full); strays include responses that carry the sequence number of a live send transaction but a foreign source entity; in half of the scenarios all daemons number their transactions from the same value. Put ids must be pairwise distinct; every success claim must show that transaction's own content at its own destination (cross-wiring is recognised by the tag); every indication must name a "
   "transaction that exists at that entity; loss-free: every Put succeeds despite the strays; always: every transaction, including those started by strays, is gone at the end, no daemon stopped, and every daemon "
   "completes a fresh Put afterwards.",
   "Single-threaded deterministic scheduler (message orderings, seeded select! branches), not preemptive interleavings. Sampled: thousands of scenarios per run.",
